@@ -385,8 +385,23 @@ SCHEDS = {
 DTYPES = ("f64", "f32spec", "f32cli", "f32like")
 
 
+INITS = {  # every way the specification language has of giving a parameter its initial value
+    "full": {"full": [2], "tensor": 0.7},
+    "zeros": {"zeros": [2]},
+    "ones": {"ones": [2]},
+    "zeros_like": {"zeros_like": "x"},
+    "ones_like": {"ones_like": "x"},
+    "full_like": {"full_like": "x", "tensor": 0.7},
+    "arange": {"arange": [1.0, 3.0]},
+    "dimension": {"tensor": [0.7, -0.2], "dimension": 3},
+}
+
+
 def param(id_, values, cfg, like=None):
     p = {"id": id_, "type": "Parameter"}
+    if cfg.get("init") and id_ == "y":
+        p.update(INITS[cfg["init"]])
+        return p
     if like is not None and cfg["dtype"] == "f32like":
         # dtype inherited from another parameter, as the specification language allows
         p["full_like"] = like
@@ -438,7 +453,7 @@ def opt_program(cfg, seed):
 # -- MCMC ------------------------------------------------------------------------------
 
 def hmc_operator(kind, cfg):
-    """kind: 'hmc' [+ '-as' | '-asr' | '-da'] [+ '-mmd' | '-mmf' | '-mmw' | '-mms' | '-mmr']"""
+    """kind: 'hmc' [+ '-as' | '-asr' | '-da'] [+ '-mmd' | '-mmf' | '-mmw' | '-mms' | '-mmr'] [+ '-w']"""
     flags = kind.split("-")[1:]
     dense = "mmf" in flags
     dim = 3
@@ -456,19 +471,23 @@ def hmc_operator(kind, cfg):
                        "step_size": 0.2},
         "mass_matrix": mass, "adaptors": [],
     }
+    # 'w': the adaptors work inside a window [start, end] that closes before the last checkpoints
+    window = {"start": 2, "end": 3} if "w" in flags else {}
     for f in flags:
+        if f == "w":
+            continue
         if f in ("as", "asr"):
             a = {"id": "ad.step", "type": "AdaptiveStepSize", "integrator": "leapfrog",
-                 "target_acceptance_probability": 0.7}
+                 "target_acceptance_probability": 0.7, **window}
             if f == "asr":
                 a["use_acceptance_rate"] = True
             op["adaptors"].append(a)
         elif f == "da":
             op["adaptors"].append({"id": "ad.dual", "type": "DualAveragingStepSize",
-                                   "integrator": "leapfrog", "mu": -1.0})
+                                   "integrator": "leapfrog", "mu": -1.0, **window})
         elif f in ("mmd", "mmf", "mmw", "mms", "mmr"):
             a = {"id": "ad.mass", "type": "MassMatrixAdaptor", "parameters": ["x", "w"],
-                 "mass_matrix": "hmc.mass", "update_frequency": 2}
+                 "mass_matrix": "hmc.mass", "update_frequency": 2, **window}
             if f == "mmw":
                 a["variance_window"] = 1
             elif f == "mms":
@@ -644,7 +663,7 @@ def histories(n_saves, tier, cfg):
 
 def sig_of(cfg, check, what):
     s = {"part": cfg["part"], "check": check, "what": what}
-    for key in ("algo", "sched", "graph", "dtype"):
+    for key in ("algo", "sched", "graph", "dtype", "init"):
         if key in cfg:
             s[key] = cfg[key]
     if "ops" in cfg:
@@ -856,7 +875,7 @@ def explore(cfg, seed, tier, only=None):
 
 def cfg_name(cfg):
     keys = ("part", "graph", "algo", "sched", "ops", "dtype", "nn", "shape", "groups", "all",
-            "freq", "N", "depth")
+            "freq", "N", "depth", "init")
     return "/".join(f"{k}={cfg[k]}" for k in keys if k in cfg)
 
 
@@ -866,7 +885,7 @@ def cfg_name(cfg):
 
 HMC_KINDS = ["hmc", "hmc-noadapt", "hmc-frss", "hmc-as", "hmc-asr", "hmc-da", "hmc-mmd", "hmc-mmf",
              "hmc-as-mmd", "hmc-as-mmf", "hmc-da-mmd", "hmc-da-mmf",
-             "hmc-mmw", "hmc-mms", "hmc-mmr"]
+             "hmc-mmw", "hmc-mms", "hmc-mmr", "hmc-as-w", "hmc-da-w", "hmc-mmd-w", "hmc-da-mmd-w"]
 BASIC_OPS = ["slide", "scaler", "dirichlet"]
 
 
@@ -876,10 +895,12 @@ def configurations(tier):
     cfgs = []
 
     def opt(algo, sched="none", dtype="f64", nn=False, shape="1d", groups=False, all_=False,
-            freq=1, n=None, depth=2, gap=None):
+            freq=1, n=None, depth=2, gap=None, init=None):
         cfgs.append({"part": "optimizer", "algo": algo, "sched": sched, "dtype": dtype,
                      "nn": nn, "shape": shape, "groups": groups, "all": all_, "freq": freq,
                      "N": n or N, "depth": depth, "gap": gap})
+        if init:
+            cfgs[-1]["init"] = init
 
     # A: every optimiser x every scheduler
     for algo in ALGOS:
@@ -907,6 +928,10 @@ def configurations(tier):
             if (shape, groups, all_, freq) != ("1d", False, False, 1):
                 for dtype, nn in (("f64", False), ("f32spec", True)):
                     opt(algo, "StepLR", dtype, nn, shape, groups, all_, freq)
+    # every form of initial value of a checkpointed parameter
+    for algo in (("SGD", "Adam") if thorough else ("Adam",)):
+        for init in INITS:
+            opt(algo, "none", n=4, depth=1, init=init)
     # three consecutive interruptions
     for algo in (("SGD-momentum", "Adam", "LBFGS", "RMSprop-centered") if thorough else ("Adam",)):
         opt(algo, "StepLR", n=6, depth=3)
